@@ -23,6 +23,8 @@ NODES = {
     "hwb": [None, (0, 1), (0, 1)],
     "linluma": [(0, 1)],
     "srgbluma": [(0, 1)],
+    "lmsvk": [(0, 1), (0, 1), (0, 1)],
+    "lmsbfd": [(0, 1), (0, 1), (0, 1)],
 }
 ORDER = list(NODES)
 HWB = ("hwb", "okhwb")
